@@ -80,6 +80,8 @@ def rows_of(sel, n):
         return sel[1], "int", [sel[1] % n]
     if sel[0] == "list":
         return list(sel[1]), "array", [r % n for r in sel[1]]
+    if sel[0] == "cells":   # every cell on its own: da.isel(rows=i, columns=j) and da[i, j] (0-d results)
+        return None, "cells", list(range(n))
     if sel[0] == "points":  # pointwise (vectorised) selection: (row_k, column_k) pairs
         return list(sel[1]), "points", [r % n for r in sel[1]]
     raise ValueError(sel)
@@ -164,6 +166,21 @@ def exercise(case):
                         fl = case["flaky_load"]
                         tracefs.arm_fault(url, im["name"], op="read", nth=fl.get("nth", 1), consume=fl.get("consume", 0.5))
                     try:
+                        if kind == "cells":
+                            msg = None
+                            cells = [(i_, j_) for i_ in range(im["n"]) for j_ in range(im["p"])]
+                            if len(cells) > 96:
+                                cells = cells[:: max(1, len(cells) // 96)]
+                            for i_, j_ in cells:
+                                for how, v_ in (("isel", da.isel(rows=i_, columns=j_).values), ("[]", da[i_, j_].values)):
+                                    if np.ndim(v_) != 0:
+                                        msg = msg or f"cell ({i_},{j_}) through {how}: {np.ndim(v_)}-d result, expected 0-d"
+                                    m1 = oracle.pixels_match(np.asarray(v_).reshape(1, 1), im, rows=[i_], cols=[j_])
+                                    msg = msg or (m1 and f"single cell through {how}: {m1}")
+                            ld["outcome"] = "equal" if msg is None else "differ"
+                            ld["msg"] = msg
+                            ld["skip_trace"] = True
+                            raise StopIteration
                         if kind == "points":
                             import xarray as xr
 
@@ -192,7 +209,7 @@ def exercise(case):
                     ld["fault_fired"] = bool(tracefs.clear_flaky())
                     if case.get("bigread_limit") and fsname == "vtrace":
                         ld["fault_fired"] = ld["fault_fired"] or tracefs.BIGREAD.pop(f"{tracefs.norm(url)}/{im['name']}", [0, 0])[1] > 0
-                    ld["events"] = tracefs.take_log() if fsname == "vtrace" else []
+                    ld["events"] = tracefs.take_log() if (fsname == "vtrace" and not ld.get("skip_trace")) else []
                     rec["loads"].append(ld)
         finally:
             tracefs.clear_faults()
@@ -223,6 +240,8 @@ def add_traces(batch, result, expect_open="ok"):
             ok = run["open"] == "ok" and "shape" in im
             batch.mark(tid, e="opened", outcome="ok" if ok else "error", shape=im.get("shape", [0, 0]), expect=expect_open)
             for ld in im["loads"]:
+                if ld.get("skip_trace"):
+                    continue  # many single-cell loads judged by value only
                 batch.mark(tid, e="begin_load", rows=ld["rows"], kind=ld["kind"],
                            brows=iotrace.backend_rows(ld["kind"], ld["rows"], im["n"]))
                 for ev in ld["events"]:
